@@ -244,6 +244,59 @@ def check_run(ctx, driver, atts, mode, pdesc, text_seed):
         elif o.get('end') != 'End of session':
             fail('session-did-not-complete', {'seat': a['seat'], 'end': o.get('end'), 'aborted': o.get('aborted'),
                                               'status': r.status, 'blocked': r.deadlock})
+    # 2b. thread level: the reactive model of `_connect` and of the accept loop (Model/Admission.lean: connectR,
+    # acceptLoopR) fed the request texts in accept order must yield the operations the REAL connection threads performed
+    # before their verdict (receive / send / close / signal) and the REAL main thread's accept-loop operations
+    conn_texts = []
+    for i in order:
+        ready = f'{FORMAL[atts[i]["seat"]]} ready for teams'
+        conn_texts.append(f'{hx(texts[i])}:{hx(ready)}')
+    line = driver.run(['G.loop ' + (';'.join(conn_texts) or '-')])[0]
+    mm = re.fullmatch(r'threads=(\S*) main=(\S*) table=(\S+)', line)
+    if not mm:
+        fail('admission-model-raises', {'model': line[:200]}, kind='broken-correspondence')
+    else:
+        want_threads = [x.split(',') for x in mm.group(1).split('|')] if mm.group(1) else []
+        for pos, i in enumerate(order[:len(want_threads)]):
+            ops_i = r.ops.get(f'seat:att-{i}', [])
+            got = []
+            for (k, o, pl) in ops_i:
+                if k in ('arrive',):
+                    break
+                if k == 'recv':
+                    got.append('r')
+                elif k == 'send':
+                    body = pl[:-2] if pl.endswith(b'\r\n') else pl
+                    got.append('s:' + (body.hex() or '-'))
+                elif k == 'close':
+                    got.append('c')
+                elif k == 'set':
+                    got.append('g')
+            exp = want_threads[pos]
+            # the wording of an error reply is not part of the property: compare it as "an error line"
+            def norm(tok):
+                if tok.startswith('s:') and tok != 's:-':
+                    try:
+                        t_ = bytes.fromhex(tok[2:]).decode('utf-8', 'replace')
+                    except ValueError:
+                        return tok
+                    return 's:ERROR' if t_.upper().startswith('ERROR') else tok
+                return tok
+            if [norm(x) for x in got] != [norm(x) for x in exp]:
+                fail('connection-thread-ops', {'request': atts[i], 'position': pos, 'impl': got, 'model': exp},
+                     kind='broken-correspondence')
+                break
+        want_main = [x for x in mm.group(2).split(',') if x and x not in ('sleep', 'alive')]
+        got_main = []
+        verdict_events = {o for (k, o, pl) in r.ops.get('main', []) if k == 'clear'}      # `event_thread`
+        for (k, o, pl) in r.ops.get('main', []):
+            if k == 'arrive':
+                break
+            if k in ('accept', 'start', 'clear') or (k == 'wait' and o in verdict_events):
+                got_main.append(k)
+        if got_main != want_main:
+            fail('accept-loop-ops', {'impl': got_main, 'model': want_main}, kind='broken-correspondence')
+        ctx.count('admission_thread_comparisons', len(want_threads))
     # 3. completion: every thread finished, except clients whose request was never accepted (they wait for ever)
     unserved_labels = {f'att-{i}' for pos, i in enumerate(order) if pos >= nserved} | \
                       {f'att-{i}' for i in range(len(atts)) if i not in order}
